@@ -46,7 +46,7 @@ const vrNode = "pandora"
 
 type vrClient struct{}
 
-func (vrClient) UpdateStatus(*v1.Service) error                       { return nil }
+func (vrClient) UpdateStatus(*v1.Service) error                     { return nil }
 func (vrClient) Infof(*v1.Service, string, string, ...interface{})  {}
 func (vrClient) Errorf(*v1.Service, string, string, ...interface{}) {}
 
@@ -167,15 +167,15 @@ func vrEvents(seed int64, n int) []vrEvent {
 type vrSystem struct {
 	eagerL2  func(types.NamespacedName) // when set: the status event is handed over synchronously (see TestVerifNotifySpeaker)
 	eagerBGP func(string)
-	c      *controller
-	ann    *layer2.Announce
-	bgp    *fakeBGP
-	lst    *k8s.Listener
-	cfgID  map[*config.Config]int
-	mu     sync.Mutex
-	order  []int // event ids in the order in which the handlers took effect
-	l2evts chan types.NamespacedName
-	bgpevt chan string
+	c        *controller
+	ann      *layer2.Announce
+	bgp      *fakeBGP
+	lst      *k8s.Listener
+	cfgID    map[*config.Config]int
+	mu       sync.Mutex
+	order    []int // event ids in the order in which the handlers took effect
+	l2evts   chan types.NamespacedName
+	bgpevt   chan string
 }
 
 func (s *vrSystem) note(id int) {
@@ -236,7 +236,16 @@ func vrNewSystem(t *testing.T, evs []vrEvent) *vrSystem {
 		},
 	}
 	c.protocols = append(c.protocols, config.Layer2)
-	c.layer2StatusFetchFunc = s.ann.GetStatus
+	// what newController installed as layer-2 status fetcher (with DisableLayer2 it reports nothing, but it
+	// is the production function value: whatever it reads, it reads in the status reconcilers' goroutines,
+	// outside the Listener mutex) is still CALLED by the consumers below, next to the announcer's GetStatus
+	prodL2 := c.layer2StatusFetchFunc
+	c.layer2StatusFetchFunc = func(nn types.NamespacedName) []layer2.IPAdvertisement {
+		if prodL2 != nil {
+			prodL2(nn)
+		}
+		return s.ann.GetStatus(nn)
+	}
 	s.c = c
 	// the callbacks the speaker installs (speaker/main.go), each noting its event
 	// id first — inside the Listener's critical section when delivered through a wrapper
@@ -406,12 +415,74 @@ func vrRaw() map[string]bool {
 	return raw
 }
 
+// vrPanicScenario: a handler PANICS once (e.g. an invariant panic deep in SetConfig); controller-runtime
+// recovers the panic of a reconcile and the work queue delivers the next event.  Through the real
+// k8s.Listener wrappers: after the recovered panic a second delivery — of ANY kind, they share the
+// one mutex — must still be served (2 s watchdog).  A wrapper that unlocks by a plain statement after
+// the call instead of a deferred one leaves the mutex held for ever.
+func vrPanicScenario(out *vOut, raw map[string]bool) {
+	l := log.NewNopLogger()
+	kinds := []string{"ServiceChanged", "ConfigChanged", "NodeChanged", "PoolChanged"}
+	for _, first := range kinds {
+		if raw[first] {
+			continue // registered without wrapper: reported by the registration obligation
+		}
+		armed := true
+		cb := func() controllers.SyncState {
+			if armed {
+				armed = false
+				panic("verif: handler panics on its first delivery")
+			}
+			return controllers.SyncStateSuccess
+		}
+		lst := &k8s.Listener{
+			ServiceChanged: func(log.Logger, string, *v1.Service, []discovery.EndpointSlice) controllers.SyncState { return cb() },
+			ConfigChanged:  func(log.Logger, *config.Config) controllers.SyncState { return cb() },
+			NodeChanged:    func(log.Logger, *v1.Node) controllers.SyncState { return cb() },
+			PoolChanged:    func(log.Logger, *config.Pools) controllers.SyncState { return cb() },
+		}
+		call := func(k string) {
+			switch k {
+			case "ServiceChanged":
+				lst.ServiceHandler(l, "ns/a", nil, nil)
+			case "ConfigChanged":
+				lst.ConfigHandler(l, nil)
+			case "NodeChanged":
+				lst.NodeHandler(l, nil)
+			case "PoolChanged":
+				lst.PoolHandler(l, nil)
+			}
+		}
+		func() { // what controller-runtime's reconcile wrapper does (RecoverPanic)
+			defer func() { _ = recover() }()
+			call(first)
+		}()
+		for _, second := range kinds {
+			if raw[second] {
+				continue
+			}
+			done := make(chan struct{})
+			go func() { call(second); close(done) }()
+			select {
+			case <-done:
+				out.Stat("panic_then_served", 1)
+			case <-time.After(2 * time.Second):
+				out.Fail("c20-deadlock-listener-mutex-held-after-panic",
+					fmt.Sprintf("after a %s handler panicked (recovered, as controller-runtime does) a %s event is not served within 2 s: the Listener mutex is still held — the wrapper of %s does not release it by a deferred unlock", first, second, first),
+					map[string]any{"first": first, "second": second, "how": "./check C20 (TestVerifRaceSpeaker, vrPanicScenario: real k8s.Listener wrappers, a callback that panics once)"})
+				return
+			}
+		}
+	}
+}
+
 func TestVerifRaceSpeaker(t *testing.T) {
 	out := vOpen()
 	defer out.Close()
 	r := vRand()
 	rounds := vN(3)
 	raw := vrRaw()
+	vrPanicScenario(out, raw)
 	// corpus/C20/F17-getstatus-alias.json: fixed first round
 	vrRound(t, out, 17, -1, raw)
 	for round := 0; round < rounds; round++ {
